@@ -69,6 +69,26 @@ func init() {
 		vc.S.Assert(eq(r, fmt.Sprintf("(exists ((i Int)) (and (<= 0 i) (< i (str-len %s)) (= (str-at %s i) %d)))", s, s, c)))
 		return &Val{T: r, Typ: resT}, true
 	})
+	reg("strings.ContainsAny", func(fr *Frame, in ssa.Instruction, args []*Val, resT types.Type) (*Val, bool) {
+		vc := fr.vc
+		ci := in.(ssa.CallInstruction)
+		c, ok := ci.Common().Args[1].(*ssa.Const)
+		if !ok {
+			return nil, false
+		}
+		set, ok := constString(c)
+		if !ok || len(set) == 0 || len(set) > 8 {
+			return nil, false
+		}
+		s := vc.term(args[0])
+		var alts []Term
+		for i := 0; i < len(set); i++ {
+			alts = append(alts, fmt.Sprintf("(= (str-at %s i) %d)", s, set[i]))
+		}
+		r := vc.S.FreshConst("containsAny", "Bool")
+		vc.S.Assert(eq(r, fmt.Sprintf("(exists ((i Int)) (and (<= 0 i) (< i (str-len %s)) %s))", s, or(alts...))))
+		return &Val{T: r, Typ: resT}, true
+	})
 	reg("strings.Index", func(fr *Frame, in ssa.Instruction, args []*Val, resT types.Type) (*Val, bool) {
 		vc := fr.vc
 		c, ok := singleCharLit(in, 1)
